@@ -7,11 +7,11 @@
                   result        = parse_added text     (parse_diff_added_lines)
    Full-strength statement:  forall d, wf_doc d = true ->
                                  parse_added (dec (render true d)) = Ok (added_lines d).
-   It is FALSE of the faithful model (C01_fmt_refuted: the two-hunk example with an added line
-   beginning with ++ and a space); C01_fmt_parse_render is the statement outside the decidable class
-   Known_C01_fmt (K1 added line beginning with ++ space; K2 unquoted path ending in a space;
-   K3 path containing BEL, BS, VT or FF).  A removed line beginning with -- space is harmless
-   (it is inside the theorem, see wit_ok).
+   It is proved as stated (C01_fmt_parse_render).  Before the repairs (hunk-aware scanners, only
+   git's TAB stripped from the header path, letter escapes a b v f, no slicing of a one-character
+   path) it was false on three classes: an added line beginning with ++ and a space, an unquoted path
+   ending in a space, a path containing BEL BS VT FF.  The former counterexamples are regression
+   witnesses now (C01_fmt_former_witnesses).
 
    wf_doc: paths are bytes; mode / object names / body lines / section texts are LF-free; per file
    the new sides of the hunks are strictly increasing and disjoint with every line number (and old
@@ -22,33 +22,25 @@ Import ListNotations.
 Open Scope N_scope.
 
 Theorem C01_fmt_parse_render :
-  forall d, wf_doc d = true -> Known_C01_fmt d = false ->
-    parse_added (dec (render true d)) = Ok (added_lines d).
+  forall d, wf_doc d = true -> parse_added (dec (render true d)) = Ok (added_lines d).
 Proof. exact parse_render. Qed.
 Print Assumptions C01_fmt_parse_render.
 
 Theorem C01_fmt_parse_render_with_insertions :
-  forall d, wf_doc d = true -> Known_C01_fmt d = false ->
+  forall d, wf_doc d = true ->
     parse_added_with_insertions (dec (render true d)) = Ok (added_lines d, insertion_lines d).
 Proof. exact parse_render_ins. Qed.
 Print Assumptions C01_fmt_parse_render_with_insertions.
 
-Theorem C01_fmt_refuted :
-  exists d, wf_doc d = true /\ Known_C01_fmt d = true /\
-            parse_added (dec (render true d)) <> Ok (added_lines d).
-Proof. exists wit_k1. exact wit_k1_refutes. Qed.
-Print Assumptions C01_fmt_refuted.
-
-(* K1: the later AI line 6 is filed under the bogus path weird; K2, K3: the path is mangled;
-   and an added line consisting of ++, a space and one double quote makes the scanner panic (slice [1..0] in unescape_git_path) *)
-Theorem C01_fmt_known_classes_fail :
-  parse_added (dec (render true wit_k1)) = Ok [(p_f, [2]); ([119;101;105;114;100], [6])] /\
-  added_lines wit_k1 = [(p_f, [2; 6])] /\
-  (wf_doc wit_k2 = true /\ parse_added (dec (render true wit_k2)) <> Ok (added_lines wit_k2)) /\
-  (wf_doc wit_k3 = true /\ parse_added (dec (render true wit_k3)) <> Ok (added_lines wit_k3)) /\
-  (wf_doc wit_panic = true /\ parse_added (dec (render true wit_panic)) = Panic).
-Proof. exact known_classes_fail. Qed.
-Print Assumptions C01_fmt_known_classes_fail.
+(* regression witnesses: the two-hunk example with an added line ++ weird; the path trail+blank;
+   the path bel+BEL; the added line consisting of ++, a blank and one double quote *)
+Theorem C01_fmt_former_witnesses :
+  (wf_doc wit_k1 = true /\ parse_added (dec (render true wit_k1)) = Ok [(p_f, [2; 6])]) /\
+  (wf_doc wit_k2 = true /\ parse_added (dec (render true wit_k2)) = Ok [([116;114;97;105;108;32], [1])]) /\
+  (wf_doc wit_k3 = true /\ parse_added (dec (render true wit_k3)) = Ok [([98;101;108;7], [1])]) /\
+  (wf_doc wit_panic = true /\ parse_added (dec (render true wit_panic)) = Ok [(p_f, [1])]).
+Proof. exact former_witnesses. Qed.
+Print Assumptions C01_fmt_former_witnesses.
 
 (* C12 corner: core.quotePath does not change a single byte when all paths are ASCII *)
 Theorem C01_fmt_quotepath_independent :
@@ -71,27 +63,24 @@ Theorem C01_fmt_hunk_header_total :
 Proof. intros os oc ns nc T H1 H2. rewrite (hunk_header_parse os oc ns nc T H1 H2). discriminate. Qed.
 Print Assumptions C01_fmt_hunk_header_total.
 
-(* start + count is evaluated in u32: the header  @@ -1 +4294967295 @@  panics (debug builds) *)
+(* start + count is evaluated in u32: the header  @@ -1 +4294967295 @@  panics (debug builds);
+   git never prints such a header (line numbers of a blob are far below 2^31) *)
 Theorem C01_fmt_hunk_header_overflow_refuted :
   exists line, parse_hunk_header line = Panic.
 Proof. eexists. exact hunk_header_overflow. Qed.
 Print Assumptions C01_fmt_hunk_header_overflow_refuted.
 
-(* path_ok p: every element is a byte and none is BEL, BS, VT, FF.  The result is the String
-   from_utf8_lossy gives for the bytes p (= the file name when p is valid UTF-8). *)
+(* path_ok p: every element is a byte.  The result is the String from_utf8_lossy gives for the
+   bytes p (= the file name when p is valid UTF-8). *)
 Theorem C01_fmt_unescape_quote :
-  forall p, path_ok p = true -> unescape_git_path (quote_c_style true p) = Ok (dec p).
+  forall p, path_ok p = true -> unescape_git_path (quote_c_style true p) = dec p.
 Proof. exact unescape_quote. Qed.
 Print Assumptions C01_fmt_unescape_quote.
 
-Theorem C01_fmt_unescape_quote_refuted :
-  exists p, forallb is_byte p = true /\ unescape_git_path (quote_c_style true p) <> Ok (dec p).
-Proof. exact unescape_quote_refuted. Qed.
-Print Assumptions C01_fmt_unescape_quote_refuted.
-
-Theorem C01_fmt_unescape_panic_refuted : unescape_git_path [34] = Panic.
-Proof. exact unescape_panics. Qed.
-Print Assumptions C01_fmt_unescape_panic_refuted.
+(* the one-character path is returned as is (it used to be sliced [1..0]) *)
+Theorem C01_fmt_unescape_lone_quote : unescape_git_path [34] = [34].
+Proof. exact unescape_lone_quote. Qed.
+Print Assumptions C01_fmt_unescape_lone_quote.
 
 (* dec really is a UTF-8 decoder: it inverts char::encode_utf8 on scalar values *)
 Theorem C01_fmt_lossy_roundtrip :
@@ -102,12 +91,14 @@ Print Assumptions C01_fmt_lossy_roundtrip.
 (* non-vacuity: a document with a quoted path (space, double quote, backslash, non-ASCII bytes), a
    path with a space (TAB after the label), a path beginning with a/, a deleted file, a new file,
    a section without hunks, a deletion-only hunk, body lines that look like diff syntax (-- y,
-   a hunk header, + x, ++, +++), CRLF, no-newline markers and a function context containing @@
-   satisfies the hypotheses, and the scanners return the four live files *)
+   a hunk header, + x, ++, +++, ++ weird, ++ /dev/null followed by a later hunk), CRLF, no-newline
+   markers, a function context containing @@, a path ending in two blanks and a path made of BEL
+   and FF satisfies the hypothesis, and the scanners return the seven live files *)
 Theorem C01_fmt_nonvacuous :
-  wf_doc wit_ok = true /\ Known_C01_fmt wit_ok = false /\
+  wf_doc wit_ok = true /\
   parse_added_with_insertions (dec (render true wit_ok))
-  = Ok ([([97;32;34;92;233], [3;4;10;11]); ([97;47;98], [1;2]); ([110], [1]); ([120;32;121], [])],
-        [([97;47;98], [1;2]); ([110], [1])]).
-Proof. split; [apply wit_ok_inside|]. split; [apply wit_ok_inside|exact wit_ok_value]. Qed.
+  = Ok ([([7;12], [1]); ([97;32;34;92;233], [3;4;10;11]); ([97;47;98], [1;2]); ([107;49], [2;3;4;11]);
+         ([110], [1]); ([116;32;32], [1]); ([120;32;121], [])],
+        [([7;12], [1]); ([97;47;98], [1;2]); ([107;49], [2;3;4]); ([110], [1]); ([116;32;32], [1])]).
+Proof. split; [exact wit_ok_inside|exact wit_ok_value]. Qed.
 Print Assumptions C01_fmt_nonvacuous.
